@@ -5,7 +5,7 @@
    build real ChUnique sketches around 1x, 2x, 3x the limit, merge them in every order and
    tree (ChUnique.Merge and MarshallAppend -> MergeRead, programs exported by TLC from
    Unique.tla) and log after every step, for the sketch that was written:
-      n[k]   the number of distinct 32-bit hashes, among everything that reached the sketch,
+      cnts[k+1]  the number of distinct 32-bit hashes, among everything that reached the sketch,
              divisible by 2^k  (k = 0..MaxK; computed from the input lists, not from the sketch)
       skip, items   ChUnique.skipDegree, ChUnique.itemsCount
       bad    number of items held that are not hashes of the input or not divisible by 2^skip
@@ -24,19 +24,21 @@ TrStep == /\ l <= Len(Trace)
           /\ UNCHANGED vars
 TraceSpec == TrInit /\ [][TrStep]_tvars
 
-Counts(e) == [k \in 0..(Len(e.n) - 1) |-> e.n[k + 1]]
+Counts(e) == [k \in 0..(Len(e.cnts) - 1) |-> e.cnts[k + 1]]
 (* the event at position l - 1 has just been consumed *)
 Last == Trace[l - 1]
+SketchOK(e) ==
+    LET n == Counts(e)
+        k == CanonSkipN(n)
+    IN /\ \E j \in DOMAIN n : n[j] <= MAXSIZE          \* the logged range of k suffices
+       /\ e.skip = k
+       /\ e.items = n[k]
+       /\ e.bad = 0
+       /\ e.est = n[k] * Pow2(k)
+       /\ e.items <= MAXSIZE
 SketchCanonical ==
     (l > 1 /\ Last.ev = "Sk") =>
-        LET n == Counts(Last)
-            k == CanonSkipN(n)
-        IN /\ \E j \in DOMAIN n : n[j] <= MAXSIZE          \* the logged range of k suffices
-           /\ Last.skip = k
-           /\ Last.items = n[k]
-           /\ Last.bad = 0
-           /\ Last.est = n[k] * Pow2(k)
-           /\ Last.items <= MAXSIZE
+        (SketchOK(Last) \/ (PrintT(<<"SKETCH_NOT_CANONICAL_AT_LINE", l - 1>>) /\ FALSE))
 
 HighWater == TLCSet(7, IF l > TLCGet(7) THEN l ELSE TLCGet(7))
 TraceAccepted == IF TLCGet(7) = Len(Trace) + 1 THEN TRUE
